@@ -588,15 +588,17 @@ Section FromContracts.
     - intros a Da. apply Hr; auto.
   Qed.
 
-  (** instances spelled as EPSG codes: [==] implies equal [_str], hence equal hashes *)
-  Definition Depsg (v : crsv) : Prop := Dcrs v /\ o_is_epsg W (o_upper W (c_srs v)) = true.
+  (** instances spelled as a single EPSG code ("EPSG:" followed by digits - not a compound "EPSG:h+v" definition):
+      [==] implies equal [_str], hence equal hashes *)
+  Definition Depsg (v : crsv) : Prop :=
+    Dcrs v /\ o_is_epsg W (o_upper W (c_srs v)) = true /\ o_code W (o_upper W (c_srs v)) <> 0.
 
   Theorem hash_dom_epsg : hash_dom W Depsg.
   Proof.
-    intros a b (Da & Ea) (Db & Eb) H. apply (Dcrs_iff a b Da Db) in H.
+    intros a b (Da & Ea & Na) (Db & Eb & Nb) H. apply (Dcrs_iff a b Da Db) in H.
     destruct Da as ((_ & Sa) & Va & _), Db as ((_ & Sb) & Vb & _). rewrite Sa, Sb. unfold fresh_str. rewrite Ea, Eb.
-    destruct (k_code_text W K _ Ea Va) as (Ta & Na). destruct (k_code_text W K _ Eb Vb) as (Tb & Nb).
-    pose proof (k_toepsg_code W K _ Ea Va) as Ca. pose proof (k_toepsg_code W K _ Eb Vb) as Cb.
+    pose proof (k_code_text W K _ Ea Na Va) as Ta. pose proof (k_code_text W K _ Eb Nb Vb) as Tb.
+    pose proof (k_toepsg_code W K _ Ea Na Va) as Ca. pose proof (k_toepsg_code W K _ Eb Nb Vb) as Cb.
     pose proof (k_toepsg_peq W K _ _ _ _ H Ca Cb Na Nb) as E. rewrite Ta, Tb, E. reflexivity.
   Qed.
 End FromContracts.
